@@ -26,17 +26,30 @@ type c19Case struct {
 	timeout time.Duration // backlog timeout given to the pool (0 = 1 s, which is also the library's default)
 	cancel1 bool          // caller 1's context is cancelled at 100 ms (pools do not evict on cancel: the line must keep moving)
 	eager   bool          // backlog timeouts may fire at any point (a caller giving up while it is being handed a token)
+	warm    int           // the pool has served this many callers one after the other (150 ms each) before the crowd arrives
 }
 
 func c19Scenario(cs c19Case) *mc.Scenario {
 	return &mc.Scenario{
 		Name:   "C19/" + cs.kind,
-		Params: fmt.Sprintf("limit=%d callers=%d backlog=%d timeout=%v hold=%v eager-clock=%v caller-1-cancelled=%v", cs.limit, cs.callers, cs.bl(), cs.to(), cs.hold, cs.eager, cs.cancel1),
+		Params: fmt.Sprintf("limit=%d callers=%d backlog=%d timeout=%v hold=%v eager-clock=%v caller-1-cancelled=%v", cs.limit, cs.callers, cs.bl(), cs.to(), cs.hold, cs.eager, cs.cancel1) + map[bool]string{true: fmt.Sprintf(" served-before=%d", cs.warm), false: ""}[cs.warm > 0],
 		Cfg:    vrt.Config{Events: true, MaxSteps: 6000, EagerClock: cs.eager, Horizon: int64(10 * time.Second)},
 		Body: func(x *mc.Exec) {
 			st := buildStack(cs.kind, cs.limit, stackOpts{maxBacklog: cs.bl(), timeout: cs.to()})
 			ws := &waitState{st: st, inAcq: make([]bool, cs.callers), granted: make([]bool, cs.callers), returned: make([]bool, cs.callers),
 				tid: make([]int, cs.callers), retClock: make([]int64, cs.callers)}
+			// a pool that has been in use: the limiter's sampling window closes with its next sample (more than 10 samples), so
+			// one of the releases below also runs the limit update
+			for k := 0; k < cs.warm; k++ {
+				l, ok := st.top.Acquire(waiterCtx(200 + k))
+				if !ok || l == nil {
+					x.Fail("not-granted", "an idle pool refused caller %d of the warm-up", k+1)
+					return
+				}
+				vtime.Sleep(150 * time.Millisecond)
+				l.OnSuccess()
+			}
+			base := vrt.Now()
 			x.Aux = ws
 			holders := 0
 			maxHolders := 0
@@ -56,7 +69,7 @@ func c19Scenario(cs c19Case) *mc.Scenario {
 					ws.inAcq[i] = false
 					ws.returned[i] = true
 					ws.granted[i] = ok
-					ws.retClock[i] = vrt.Now()
+					ws.retClock[i] = vrt.Now() - base
 					if ok != (l != nil) {
 						x.Fail("listener-iff-ok", "listener=%v ok=%v", l != nil, ok)
 					}
@@ -169,6 +182,8 @@ func runC19(c *Ctx) {
 		c.Explore(c19Scenario(c19Case{kind: kind, limit: 2, callers: 3}), mc.Options{PreemptBound: c.Pick(2, 3)})
 		// holders keep their tokens for 300 ms of virtual time (three generations fit into the 1 s timeout)
 		c.Explore(c19Scenario(c19Case{kind: kind, limit: 1, callers: 3, hold: 300 * time.Millisecond}), mc.Options{PreemptBound: 2})
+		// the same on a pool whose sampling window closes during one of the releases
+		c.Explore(c19Scenario(c19Case{kind: kind, limit: 1, callers: 3, hold: 300 * time.Millisecond, warm: 10}), mc.Options{PreemptBound: 2})
 		// a queued caller's context is cancelled while it waits; the holder releases later
 		c.Explore(c19Scenario(c19Case{kind: kind, limit: 1, callers: 3, hold: 300 * time.Millisecond, cancel1: true}), mc.Options{PreemptBound: c.Pick(1, 2)})
 		// a timeout above the library's default: the third caller is served after 1.4 s, inside the 2 s it was given
